@@ -9,6 +9,7 @@ import Mahotas.Proofs.C01Loops
 import Mahotas.Proofs.C01Tables
 import Mahotas.Proofs.C01Dispatch
 import Mahotas.Generated.Tables
+import Mahotas.Proofs.C01Signed
 namespace Mahotas.C01
 open Mahotas
 
@@ -196,8 +197,8 @@ theorem C01_dilate_scatter_characterisation (dt : DT) (A : Img Int) (sup : List 
     (∀ p kh, Reaches dt A sup q p kh → dilateAdd dt (A.getD p dt.lo) kh.2 ≤ v) ∧
     (v = dt.lo ∨ ∃ p kh, Reaches dt A sup q p kh ∧ v = dilateAdd dt (A.getD p dt.lo) kh.2) := by
   intro v q
-  have hq : inside A.shape q = true := inside_unravelI A.shape i hi
-  have hiq : ravelI A.shape q = i := ravelI_unravelI A.shape i hi
+  have hq : inside A.shape q = true := C01.inside_unravelI A.shape i hi
+  have hiq : ravelI A.shape q = i := C01.ravelI_unravelI A.shape i hi
   obtain ⟨hsz, hv⟩ := dilateModel_getD dt A hs sup i hi
   have hv' : v = listMax dt.lo (scatCands dt A sup i) := hv
   refine ⟨hsz, ?_, ?_, ?_⟩
@@ -769,8 +770,8 @@ theorem C01_path_independent (dt : DT) (hdt : DTypeOK dt) (A : Img Int) (bshape 
         exact fastErodeLoops_size Ny Nx data _ bc hdata
       · exact erodeModel_size _ _ _
       · intro i hi
-        have hin := inside_unravelI A.shape i hi
-        have hrv := ravelI_unravelI A.shape i hi
+        have hin := C01.inside_unravelI A.shape i hi
+        have hrv := C01.ravelI_unravelI A.shape i hi
         have hs : ∀ d ∈ A.shape, 0 < d := by
           intro d hd
           rw [hshape] at hd
@@ -960,3 +961,146 @@ example :
     { shape := [2, 3], data := #[9, 200, 255, 7, 4, 31] } (.int 8) 2 (Or.inr ⟨8, rfl, by decide +kernel⟩)
     (by decide) rfl (imageInRange_of_data _ _ (by simp [DT.InRange, dtU]) (by simp [DT.InRange, dtU]))
   exact ⟨e, d, h1, h2, h4 rfl⟩
+
+
+/-! ## Round 4 — non-flat elements and signed dtypes: dilation at every pixel
+
+For a signed dtype a 0 entry of the structuring element is a **member of height 0** (only `dt.lo` means "not in
+the element"), so the cross of `get_structuring_elem` is the full `3 × … × 3` box with height 1 on the ℓ1 ball
+and height 0 elsewhere — not flat, and `C01_dilate_regular_everywhere` does not apply. What makes the clamped
+scatter of the kernel equal to the lattice definition (clamped gather) at border pixels is not flatness but
+**monotonicity of the heights towards the centre**. -/
+
+/-- **C01-T4' (height-monotone star-shaped elements: dilation at every pixel).** If with every member `(k, h)`
+every offset `k'` coordinate-wise between `0` and `k` is a member of height `≥ h` (`HeightMonotoneStar`: flat
+star-shaped elements, "pyramids", and every cross/box/disk on a signed dtype), then for every integer dtype
+(signed included) and bool, every image of every rank and shape with positive axis lengths and in-range values
+(negative ones included), and **every** pixel `q` — border pixels included, where the kernel's scatter is
+clamped — the model of the generic `dilate` kernel equals the lattice definition. -/
+theorem C01_dilate_height_monotone_everywhere (dt : DT) (hdt : DTypeOK dt) (A : Img Int) (bshape : List Nat)
+    (sup : List (List Int × Int)) (q : List Int)
+    (hs : ∀ d ∈ A.shape, 0 < d) (hl : bshape.length = A.shape.length) (hbox : OffsetsInBox bshape sup)
+    (hA : ImageInRange dt A) (hB : AdmissibleElem dt sup) (hmono : HeightMonotoneStar dt sup)
+    (hq : inside A.shape q = true) :
+    (dilateModel dt A sup).getD (ravelI A.shape q) dt.lo = dilateSpecAt dt A sup q :=
+  dilate_heightMonotone_everywhere dt A sup q hs
+    (fun kh hkh => by rw [boxOffsets_length bshape kh.1 (hbox kh hkh), hl])
+    (valOK_of dt hdt A sup hA hB) hmono hq
+
+/-- the executable test `starMonotone` of the driver (enumerate every box offset between 0 and each member and
+look for a member there of at least the same height) is sound for `HeightMonotoneStar`; the predicate itself
+is spelled out in the second component. -/
+theorem C01_star_monotone_check (dt : DT) (bshape : List Nat) (sup : List (List Int × Int))
+    (hbox : OffsetsInBox bshape sup) :
+    (starMonotone bshape (sup.filter (isMember dt)) = true → HeightMonotoneStar dt sup) ∧
+    (HeightMonotoneStar dt sup ↔
+      ∀ kh ∈ sup, isMember dt kh = true → ∀ k', between k' kh.1 = true →
+        ∃ kh' ∈ sup, isMember dt kh' = true ∧ kh.2 ≤ kh'.2 ∧ kh'.1 = k') :=
+  ⟨heightMonotone_of_check dt bshape sup hbox, Iff.rfl⟩
+
+/-- **C01-T3b/T4/T4' in the form the check uses since round 4.** The driver marks pixel `q` as *observed* when
+`starShaped … && flatHeights … || starMonotone … || boxInterior …` evaluates to true on the members of the
+support it built; at every observed pixel the model of the generic `dilate` kernel equals the lattice
+definition. -/
+theorem C01_dilate_eq_spec_where_observed_r4 (dt : DT) (hdt : DTypeOK dt) (A : Img Int) (bshape : List Nat)
+    (sup : List (List Int × Int)) (q : List Int)
+    (hs : ∀ d ∈ A.shape, 0 < d) (hl : bshape.length = A.shape.length) (hbox : OffsetsInBox bshape sup)
+    (hA : ImageInRange dt A) (hB : AdmissibleElem dt sup) (hq : inside A.shape q = true)
+    (hobs : (starShaped bshape ((sup.filter (isMember dt)).map (·.1)) &&
+             flatHeights ((sup.filter (isMember dt)).map (·.2)) ||
+             starMonotone bshape (sup.filter (isMember dt)) ||
+             boxInterior A.shape bshape q) = true) :
+    (dilateModel dt A sup).getD (ravelI A.shape q) dt.lo = dilateSpecAt dt A sup q := by
+  rw [Bool.or_eq_true, Bool.or_eq_true, Bool.and_eq_true] at hobs
+  rcases hobs with (⟨hstar, hflat⟩ | hmono) | hb
+  · exact C01_dilate_regular_everywhere dt hdt A bshape sup q hs hl hbox hA hB hstar hflat hq
+  · exact C01_dilate_height_monotone_everywhere dt hdt A bshape sup q hs hl hbox hA hB
+      (heightMonotone_of_check dt bshape sup hbox hmono) hq
+  · exact C01_dilate_eq_spec_boxInterior dt hdt A bshape sup q hs hl hbox hA hB hq hb
+
+/-- **C01-T4' + T6 (signed dtypes: dilation at every pixel for a centred cross, disk or odd box).** For every
+**signed** integer dtype, every image of every rank `d` and shape with positive axis lengths and in-range
+(possibly negative) values, and the structuring element being `crossElem d r` (any radius), `diskElem d r` (any
+radius) or an all-ones box of odd sides, the model of the generic `dilate` kernel on the support the driver
+builds (`support bshape bc false`: every cell of the box is a member, height 1 on the footprint, 0 off it)
+equals the lattice definition at **every** pixel, border included. -/
+theorem C01_dilate_cross_box_disk_everywhere_signed (dt : DT) (wf : dt.WF) (hneg : dt.lo < 0) (A : Img Int)
+    (bshape : List Nat) (bc : Array Int) (q : List Int)
+    (hs : ∀ d ∈ A.shape, 0 < d) (hA : ImageInRange dt A) (hq : inside A.shape q = true)
+    (hfam : CrossBoxDisk A.shape.length bshape bc) :
+    (dilateModel dt A (support bshape bc false)).getD (ravelI A.shape q) dt.lo =
+      dilateSpecAt dt A (support bshape bc false) q := by
+  have hr := hfam.regular
+  have hp := wf.hi_pos
+  have hB : AdmissibleElem dt (support bshape bc false) := by
+    intro kh hkh
+    refine ⟨?_, ?_, fun hb => ?_⟩
+    · unfold DT.InRange; rcases hr.heights false kh hkh with h | h <;> omega
+    · left; rcases hr.heights false kh hkh with h | h <;> omega
+    · rw [wf.notBool] at hb; cases hb
+  exact C01_dilate_height_monotone_everywhere dt (Or.inl wf) A bshape _ q hs hr.rank
+    (C01_support_offsets_in_box bshape bc false).1 hA hB (heightMonotone_regular_signed dt wf hneg hr) hq
+
+/-- **C01 end to end for `None`/integer arguments on signed images (`mahotas.dilate(A, Bc)`).** For every
+signed integer dtype, every flag combination, every image of rank `d` and shape with positive axis lengths and
+in-range values, and `Bc` being `None` or **any** Python integer: the call does not raise and the dilation
+returned is the lattice definition for the (non-flat) element `get_structuring_elem` builds at **every** pixel,
+border included — closing the gap left by `C01_python_call_cross`, which had it for bool and unsigned only. -/
+theorem C01_python_call_cross_signed (dt : DT) (wf : dt.WF) (hneg : dt.lo < 0) (fl : ArrFlags) (A : Img Int)
+    (Bc : BcArg) (r : Int)
+    (hBc : (Bc = .none ∧ r = 1) ∨ ∃ v, Bc = .int v ∧ r = seRadius A.shape.length v)
+    (hs : ∀ d ∈ A.shape, 0 < d) (hdata : A.data.size = A.size) (hA : ImageInRange dt A) :
+    let bshape := List.replicate A.shape.length 3
+    let sup := support bshape (crossElem A.shape.length r) false
+    ∃ d, dilatePy dt fl A Bc = .ok d ∧
+      ∀ q, inside A.shape q = true → d.getD (ravelI A.shape q) dt.lo = dilateSpecAt dt A sup q := by
+  intro bshape sup
+  have hdt : DTypeOK dt := Or.inl wf
+  have hse : getStructuringElem dt A.shape.length Bc = .ok (bshape, crossElem A.shape.length r) := by
+    rcases hBc with ⟨rfl, rfl⟩ | ⟨v, rfl, rfl⟩
+    · exact getSE_none dt _
+    · exact getSE_int dt _ v
+  have hrank : bshape.length = A.shape.length := by simp [bshape]
+  have hbc := crossElem_size A.shape.length r
+  have h01 := crossElem_01 A.shape.length r
+  refine ⟨dilateDispatch dt fl A bshape (crossElem A.shape.length r), by simp only [dilatePy, hse], ?_⟩
+  intro q hq
+  have hpi := (C01_path_independent dt hdt A bshape _ hrank hdata hbc hA (fun _ => h01)).2.1 fl
+  rw [wf.notBool] at hpi
+  rw [hpi]
+  exact C01_dilate_cross_box_disk_everywhere_signed dt wf hneg A bshape _ q hs hA hq (Or.inl ⟨r, rfl, rfl⟩)
+
+/-! non-vacuity (round 4): `dilate(A)` on an int8 2×3 image with negative values and a pixel at the dtype minimum —
+    model = lattice definition at all six (border) pixels; the signed cross passes `starMonotone` but is not flat;
+    a 1-D "pyramid" `[1, 2, 1]` on uint8 passes it too. -/
+example :
+    let A : Img Int := { shape := [2, 3], data := #[-5, 9, -128, 7, -7, 100] }
+    let sup := support [3, 3] (crossElem 2 1) false
+    (dilatePy (dtI 8) ⟨true, true, true, true⟩ A .none).toOption.map (·.toList) = some [10, 100, 101, 9, 101, 101] ∧
+    (allPos A.shape).map (dilateSpecAt (dtI 8) A sup) = [10, 100, 101, 9, 101, 101] ∧
+    starMonotone [3, 3] (sup.filter (isMember (dtI 8))) = true ∧
+    flatHeights ((sup.filter (isMember (dtI 8))).map (·.2)) = false ∧
+    (allPos A.shape).all (fun q => boxInterior A.shape [3, 3] q) = false ∧
+    starMonotone [3] ((support [3] #[1, 2, 1] false).filter (isMember (dtU 8))) = true := by
+  decide +kernel
+
+example :
+    let A : Img Int := { shape := [2, 3], data := #[-5, 9, -128, 7, -7, 100] }
+    ∃ d, dilatePy (dtI 8) ⟨true, true, true, true⟩ A (.int 8) = .ok d ∧
+      ∀ q, inside A.shape q = true → d.getD (ravelI A.shape q) (-128) =
+        dilateSpecAt (dtI 8) A (support [3, 3] (crossElem 2 2) false) q :=
+  C01_python_call_cross_signed (dtI 8) wf_i8 (by decide) ⟨true, true, true, true⟩
+    { shape := [2, 3], data := #[-5, 9, -128, 7, -7, 100] } (.int 8) 2 (Or.inr ⟨8, rfl, by decide +kernel⟩)
+    (by decide) rfl (imageInRange_of_data _ _ (by simp [DT.InRange, dtI]) (by simp [DT.InRange, dtI]))
+
+/-! the hypothesis cannot be dropped: heights that *increase* away from the centre (`[3, 1, 1, 1, 3]` on uint8).
+    At the border pixel 0 of the image `[1, 20, 1]` the kernel's clamped scatter brings `20 + 3` (from pixel 1
+    through the offset −2, clamped), while the lattice definition reads pixel 1 only through the offset −1 and
+    gives `20 + 1`. -/
+example :
+    let A : Img Int := { shape := [3], data := #[1, 20, 1] }
+    let sup := support [5] #[3, 1, 1, 1, 3] false
+    (dilateModel (dtU 8) A sup).toList = [23, 21, 23] ∧
+    (allPos A.shape).map (dilateSpecAt (dtU 8) A sup) = [21, 21, 21] ∧
+    starMonotone [5] (sup.filter (isMember (dtU 8))) = false := by
+  decide +kernel
